@@ -113,4 +113,103 @@ def _relaxation(rec):
     return {"violated": bool(msgs), "observed": msgs, "call": "to_code() of a %s jump graph with NOP paddings %r" % (m.group(1), pads)}
 
 
-REPLAYERS = {"blocks.relaxation_loop": _relaxation, "blocks.ToArgs.found_index": _found_index, "flags.": _flag_word, "blocks._instrsize": _instrsize, "args.args_from_input": _args_from_input}
+def _num(x, default=0):
+    try:
+        return int(x)
+    except Exception:
+        return default
+
+
+def _expand_items(rec):
+    """real expand_items on the counter-model's collapsed entry: cumulative deltas preserved, every entry representable"""
+    import code_data._line_mapping as L
+    inp = rec.get("inputs") or {}
+    is_lt = "linetable" in rec["obligation"]
+    noline = "no-line" in rec["obligation"]
+    b = max(0, _num(inp.get("bytecode_offset")))
+    l = None if noline else _num(inp.get("line_offset"))
+    if b > 10 ** 7 or (l is not None and abs(l) > 10 ** 7):
+        return {"violated": None, "note": "counter-model too large to materialise"}
+    out = L.expand_items([L.CollapsedLineTableItem(l, b)], is_lt)
+    msgs = []
+    if sum(i.bytecode_offset for i in out) != b:
+        msgs.append("bytecode deltas sum to %d, not %d" % (sum(i.bytecode_offset for i in out), b))
+    if l is not None and sum(i.line_offset for i in out) != l:
+        msgs.append("line deltas sum to %d, not %d" % (sum(i.line_offset for i in out), l))
+    for i in out:
+        if not (0 <= i.bytecode_offset <= (254 if is_lt else 255)) or not (-128 <= i.line_offset <= 127):
+            msgs.append("entry (%d, %d) does not fit its bytes" % (i.bytecode_offset, i.line_offset))
+        if is_lt and (i.line_offset == -128) != noline:
+            msgs.append("entry (%d, %d): no-line marker %s" % (i.bytecode_offset, i.line_offset, "missing" if noline else "emitted for a lined section"))
+    return {"violated": bool(msgs), "observed": msgs[:4], "call": "expand_items([CollapsedLineTableItem(%r, %r)], %r)" % (l, b, is_lt)}
+
+
+def _pipeline(rec):
+    """the harness's assembler-model program with the counter-model's line deltas, through from_code/to_code on a real code object"""
+    import re
+    import sys
+    from . import props2
+    props2._load_more()
+    from .props3 import _c10_one
+    m = re.search(r"lm\.pipeline\[(\w+),b=\(([\d,]+)\)(?:,noline=(\d+)|,no-line)?", rec["obligation"])
+    if not m:
+        return {"violated": None, "note": "cannot parse the harness name"}
+    bs = [int(x) for x in m.group(2).split(",") if x]
+    nol = [c == "1" for c in (m.group(3) or ("1" if ",no-line" in rec["obligation"] else "0" * len(bs)))]
+    inp = rec.get("inputs") or {}
+    prog = [(b, None if nol[k] else _num(inp.get("l%d" % k), 1)) for k, b in enumerate(bs)]
+    want_lt = m.group(1) == "linetable"
+    if want_lt != (sys.version_info >= (3, 10)):
+        return {"violated": None, "note": "format of the harness does not match this interpreter"}
+    try:
+        msgs = _c10_one(prog, 0 if want_lt else 4)
+    except AssertionError as e:
+        return {"violated": None, "note": "assembler model precondition: %s" % e}
+    return {"violated": bool(msgs), "observed": msgs[:4], "call": "from_code/to_code on the assembler-model table of %r" % (prog,)}
+
+
+def _to_arg(rec):
+    import dis
+    import code_data._blocks as B
+    inp = rec.get("inputs") or {}
+    op, arg, nxt = _num(inp.get("opcode")), _num(inp.get("arg")), _num(inp.get("next_offset"), 2)
+    n = arg + 3
+    mk = lambda p: B.ToArgs(tuple("%s%d" % (p, i) for i in range(n)))
+    try:
+        r = B.to_arg(op, arg, nxt, mk("n"), mk("v"), tuple("f%d" % i for i in range(n)), B.ToArgs(("c0",)), mk("k"))
+    except Exception as e:
+        return {"violated": True, "observed": ["to_arg raised %s: %s" % (type(e).__name__, e)]}
+    s = 2 if dis.opname[op] and hasattr(dis, "hasjabs") and __import__("sys").version_info >= (3, 10) else 1
+    msgs = []
+    if op in dis.hasjabs and not (isinstance(r, B.Jump) and not r.relative and r.target == s * arg):
+        msgs.append("absolute jump decoded as %r, CPython jumps to %d" % (r, s * arg))
+    if op in dis.hasjrel and not (isinstance(r, B.Jump) and r.relative and r.target == nxt + s * arg):
+        msgs.append("relative jump decoded as %r, CPython jumps to %d" % (r, nxt + s * arg))
+    if op in dis.hasname and not (isinstance(r, B.Name) and r.name == "n%d" % arg):
+        msgs.append("name operand decoded as %r" % (r,))
+    if op in dis.haslocal and not (isinstance(r, B.Varname) and r.varname == "v%d" % arg):
+        msgs.append("local operand decoded as %r" % (r,))
+    if op in dis.hasconst and not (isinstance(r, B.Constant) and r.constant == "k%d" % arg):
+        msgs.append("constant operand decoded as %r" % (r,))
+    if op in dis.hasfree:
+        want = B.Cellvar("c0") if arg < 1 else B.Freevar("f%d" % (arg - 1))
+        if type(r) is not type(want) or (getattr(r, "cellvar", None), getattr(r, "freevar", None)) != (getattr(want, "cellvar", None), getattr(want, "freevar", None)):
+            msgs.append("cell/free operand %d decoded as %r, CPython uses %r" % (arg, r, want))
+    return {"violated": bool(msgs), "observed": msgs, "call": "to_arg(%d, %d, %d, ...)" % (op, arg, nxt)}
+
+
+def _float_key(rec):
+    import struct
+    from code_data._constants import constant_key
+    inp = rec.get("inputs") or {}
+
+    def fl(x):
+        return float(x) if x not in (None, "nan") else float("nan")
+    a, b = fl(inp.get("a")), fl(inp.get("b"))
+    same = (a != a and b != b) or struct.pack(">d", a) == struct.pack(">d", b)
+    got = constant_key(a) == constant_key(b)
+    return {"violated": got != same, "observed": ["constant_key(%r) == constant_key(%r) is %r; bit-equal modulo NaN is %r" % (a, b, got, same)]}
+
+
+REPLAYERS = {"blocks.relaxation_loop": _relaxation, "lm.expand_items": _expand_items, "lm.pipeline": _pipeline, "blocks.to_arg": _to_arg,
+             "constants.constant_key.float": _float_key, "blocks.ToArgs.found_index": _found_index, "flags.": _flag_word, "blocks._instrsize": _instrsize, "args.args_from_input": _args_from_input}
